@@ -9,6 +9,10 @@ CLAIMED = {
          'The jit-compiled validity test (_check_conns, _validate_matrix) is proved equivalent to the statement-level definition of a valid connection matrix for all matrices/settings (deductive, unbounded); enumeration and counting are only bounded.',
          'Trusted: pyvc encoding incl. numpy 1-D/2-D model, numba compiles Python semantics, int64 as mathematical ints, lemma sum-of-nonnegatives >= 0; enumeration bounded only.',
          'contract-based deductive verification (self-generated VCs from the real AST + sidecar contracts, z3/cvc5) with bounded run-time contract checking as labelled stand-in'),
+ 'C17': ('proof',
+         'Every function between the metric nodes and the evaluation result (_can_be_objective, _can_be_constraint, _get_metrics, _categorize_metrics, _choose_metric_type, Objective/Constraint.from_metric_node and __init__, DSGEvaluator.evaluate) is under contract; the clauses of the property statement are postconditions and all generated obligations are discharged by z3/cvc5 for all inputs. The link permanent_nodes = nodes existing in every architecture is the closure contract of C02 plus a bounded corroboration.',
+         'Trusted: pyvc encoding, z3/cvc5, NaN as a distinguished constant, metric type is None or a MetricType, cached properties modelled as fields (metric_nodes sorted by name, permanent_nodes = _get_permanent_nodes()), assumption A17-perm (every decoded instance contains the confirmed initial nodes; decided bounded under C02).',
+         'contract-based deductive verification (self-generated VCs from the real AST + sidecar contracts, z3/cvc5); bounded run-time contract check of the assumed permanent-node link'),
  'C16': ('other',
          'Clamp/report clauses of the design-variable value path are discharged deductively for all inputs (pyvc: VCs generated from the real source, z3/cvc5); the existence-coverage clause is only bounded.',
          'Trusted: pyvc encoding of the Python subset, z3/cvc5, floats as exact reals, ints mathematical; assumed callee contracts are listed in the evidence.',
